@@ -27,7 +27,7 @@ for i in ids:
     rows.append('| %s | %s%s | %s | %s |' % (i, title, reb, res, ', '.join(classes)))
 blind = sum(1 for i in ids if i.startswith('C'))
 text = '| id | change (author\'s title) | result | violation classes reported |\n|---|---|---|---|\n' + '\n'.join(rows)
-text += '\n\n%d changes recorded (%d from the eight blind waves, %d from the four red-team passes); %d detected by the quick tier of a claimed check, %d deliberately not detected (see below), %d no longer property-breaking.' % (n, blind, n - blind, det, undet, neutral)
+text += '\n\n%d changes recorded (%d from nine waves (the last one held out), %d from the four red-team passes); %d detected by the quick tier of a claimed check, %d not detected (two deliberately, the others from the held-out ninth wave; see below), %d no longer property-breaking.' % (n, blind, n - blind, det, undet, neutral)
 s = open('/verif/DESIGN.md').read()
 s2 = re.sub(r'(<!-- SEEDED-TABLE-BEGIN -->\n).*?(\n<!-- SEEDED-TABLE-END -->)', lambda mm: mm.group(1) + text + mm.group(2), s, flags=re.S)
 assert s2 != s or text in s
